@@ -232,7 +232,7 @@ impl Ctx {
                 return *a;
             }
             loop {
-                let r = reserve_udp().expect("reserve_udp");
+                let r = reserve_udp().unwrap_or_else(|e| panic!("SETUP: reserve_udp: {e:?}"));
                 let a = r.addr;
                 let clash = self.udp_addr.values().any(|x| *x == a);
                 self.udp_res.push(r);
@@ -247,7 +247,7 @@ impl Ctx {
                 return *a;
             }
             loop {
-                let a = self.w.reserve_addr().expect("reserve_addr");
+                let a = self.w.reserve_addr().unwrap_or_else(|e| panic!("SETUP: reserve_addr: {e:?}"));
                 if !self.tcp_addr.values().any(|x| *x == a) && !self.backends.iter().any(|b| b.addr == a) {
                     self.tcp_addr.insert(slot, a);
                     return a;
@@ -259,7 +259,7 @@ impl Ctx {
 
     fn backend_addr(&mut self, slot: u64) -> SocketAddr {
         while self.backends.len() < 2 {
-            self.backends.push(MockBackend::listen().expect("mock backend"));
+            self.backends.push(MockBackend::listen().unwrap_or_else(|e| panic!("SETUP: mock backend: {e:?}")));
         }
         self.backends[(slot % 2) as usize].addr
     }
@@ -770,7 +770,7 @@ fn http_probe(ctx: &mut Ctx, addr: SocketAddr, host: &str, method: &str, path: &
         }
     }
     let head = String::from_utf8_lossy(&c.received).to_lowercase();
-    c.close();
+    c.reset();
     (true, reached, status, head)
 }
 
@@ -795,7 +795,7 @@ fn tcp_probe(ctx: &mut Ctx, addr: SocketAddr, marker: &str) -> (bool, Option<usi
             break;
         }
     }
-    c.close();
+    c.reset();
     (true, reached)
 }
 
@@ -860,7 +860,7 @@ fn check_view_and_behaviour(ctx: &mut Ctx, keys_seen: &BTreeSet<(u64, u64)>) {
         let s = ctx.master.https_listeners.get(&addr).map(|l| l.active).unwrap_or(false);
         let t = ctx.master.tcp_listeners.get(&addr).map(|l| l.active).unwrap_or(false);
         let view_active = active(h) || active(s) || active(t);
-        let accepts = RawConn::connect(addr).map(|c| c.close()).is_ok();
+        let accepts = RawConn::connect(addr).map(|c| c.reset()).is_ok();
         let judged = !ctx.unforwardable_slots.contains(&slot);
         let any_failed = ["h", "s", "t"].iter().any(|ty| ctx.failed_listener.contains(&(ty.to_string(), slot)));
         if judged && view_active && !accepts {
@@ -897,6 +897,12 @@ fn check_view_and_behaviour(ctx: &mut Ctx, keys_seen: &BTreeSet<(u64, u64)>) {
                     .cloned()
                     .collect();
                 let clusters: BTreeSet<String> = matching.iter().filter_map(|f| f.cluster_id.clone()).collect();
+                // a frontend of the view that answers this probe may be another key (same host and path, any
+                // method): if the worker refused that one (F8 family), the divergence belongs to it
+                let matching_failed = matching.iter().any(|f| {
+                    let m = METHODS.iter().position(|x| x.map(|s| s.to_string()) == f.method).unwrap_or(9) as u64;
+                    ctx.failed_front.contains(&(false, slot, key_id(hi as u64, pi as u64, m)))
+                });
                 if clusters.len() > 1 {
                     continue; // precedence between overlapping rules is another property (C04)
                 }
@@ -912,6 +918,7 @@ fn check_view_and_behaviour(ctx: &mut Ctx, keys_seen: &BTreeSet<(u64, u64)>) {
                     if ctx.failed_clusters.contains(&cnum) {
                         ctx.tags.push("behaviour-skipped:cluster-command-outcome-differs".into());
                     } else if !ctx.failed_front.contains(&(false, slot, *key))
+                        && !matching_failed
                         && !ctx.reactivated.contains(&("h".to_string(), slot))
                         && !ctx.removed_once.contains(&("h".to_string(), slot))
                         && !ctx.token_reused
@@ -961,7 +968,7 @@ fn check_view_and_behaviour(ctx: &mut Ctx, keys_seen: &BTreeSet<(u64, u64)>) {
                     (None, true) => {}
                     (None, false) => {
                         let cluster_failed = clusters.iter().any(|c| ctx.failed_clusters.contains(&c.trim_start_matches('c').parse::<u64>().unwrap_or(99)));
-                        let cause = if ctx.failed_front.contains(&fk) || cluster_failed {
+                        let cause = if ctx.failed_front.contains(&fk) || matching_failed || cluster_failed {
                             "command-outcome-differs"
                         } else if ctx.reactivated.contains(&("h".to_string(), slot)) {
                             "listener-reactivated"
@@ -982,7 +989,7 @@ fn check_view_and_behaviour(ctx: &mut Ctx, keys_seen: &BTreeSet<(u64, u64)>) {
                     (Some(i), _) => {
                         let cause = if pi == 4 {
                             "equals-path"
-                        } else if ctx.failed_front.contains(&fk) {
+                        } else if ctx.failed_front.contains(&fk) || matching_failed {
                             "command-outcome-differs"
                         } else if ctx.shared_backend_addr {
                             "backends-share-address"
@@ -1079,7 +1086,9 @@ fn gen_case(rng: &mut Rng, thorough: bool) -> Vec<String> {
     let types = ['h', 'h', 't', 't', 's', 'u'];
     // a flavour per case keeps some cases clean (only accepted, well-ordered commands)
     let clean = rng.chance(1, 3);
-    let traffic = thorough && rng.chance(1, 4);
+    // never on a max_connections = 1 worker: the background client's sessions take slab entries (the capacity
+    // gate then trips at an unpredictable point) and its next request can wait at the accept gate
+    let traffic = thorough && !small && rng.chance(1, 4);
     if traffic {
         ops.push("traffic".into());
     }
@@ -1368,9 +1377,41 @@ fn gen_case(rng: &mut Rng, thorough: bool) -> Vec<String> {
 
 // ------------------------------------------------------------ interpreter --
 
+/// Set-up failures of the rig (no free port for a reservation or a mock backend, worker thread not
+/// starting: the machine is busy, thousands of sockets in TIME_WAIT) are not verdicts about the code
+/// under test: the case is retried, then counted as inconclusive (never judged, never compared).
+fn run_case_retrying(ops: &[String]) -> ImplRun {
+    let mut last = String::new();
+    for attempt in 0..3u32 {
+        match std::panic::catch_unwind(std::panic::AssertUnwindSafe(|| run_case_inner(ops))) {
+            Ok(r) => {
+                if let Some((_, msg)) = r.oracle.iter().find(|(c, _)| c == "rig-setup") {
+                    last = msg.clone();
+                } else {
+                    return r;
+                }
+            }
+            Err(e) => {
+                let msg = e.downcast_ref::<String>().cloned().or_else(|| e.downcast_ref::<&str>().map(|s| s.to_string())).unwrap_or_else(|| "panic".into());
+                if !msg.starts_with("SETUP:") {
+                    std::panic::resume_unwind(e);
+                }
+                last = msg;
+            }
+        }
+        std::thread::sleep(Duration::from_millis(150 << attempt));
+    }
+    ImplRun {
+        out: ops.iter().map(|_| "inconclusive".to_string()).collect(),
+        oracle: vec![],
+        tags: vec!["inconclusive:rig-setup".into(), format!("inconclusive-cause:{}", last.chars().take(40).collect::<String>())],
+        nontrivial: false,
+    }
+}
+
 fn run_case(ops: &[String]) -> ImplRun {
     let t0 = Instant::now();
-    let mut r = run_case_inner(ops);
+    let mut r = run_case_retrying(ops);
     let ms = t0.elapsed().as_millis();
     r.tags.push(format!("case-ms:{}", if ms < 20 { "<20" } else if ms < 100 { "<100" } else if ms < 300 { "<300" } else if ms < 1000 { "<1000" } else { ">=1000" }));
     r
@@ -1440,7 +1481,7 @@ fn run_case_inner(ops: &[String]) -> ImplRun {
                                 let mut cl = RawConn::connect(l).ok()?;
                                 cl.write_all(b"GET / HTTP/1.1\r\nHost: traffic.test\r\nConnection: close\r\n\r\n", T).ok()?;
                                 let m = read_http_message(&mut cl, T).ok()?;
-                                cl.close();
+                                cl.reset();
                                 (m.status() == Some(200)).then_some(())
                             })();
                             if good.is_some() {
@@ -1795,7 +1836,7 @@ impl Area for WorkerArea {
     }
     fn lines_agree(&self, impl_line: &str, model_line: &str) -> bool {
         // `nowait` requests: the model cannot know whether the worker woke up between the two writes
-        if impl_line.starts_with("queued") {
+        if impl_line.starts_with("queued") || impl_line == "inconclusive" {
             return true;
         }
         impl_line == model_line
